@@ -36,7 +36,7 @@ def cfg_of(vec, hdrsel=True):
             c[k] = max(n, 1)
     c.update(name=vec["cmd"], N=n, T=t, HdrSel=hdrsel, Skip=skip)
     f = {"kind": "none", "at": 0}
-    if vec.get("mode") == "wfail":
+    if vec.get("mode") == "wfail" or vec.get("failk", 0) > 0:     # a write fault, possibly under an imposed delivery order (mode gate)
         f = {"kind": "wr", "at": vec["failk"]}
     elif vec.get("mode") == "badrec":
         f = {"kind": "rd", "at": vec["badat"]}
